@@ -32,11 +32,12 @@ type analysis struct {
 	steps []modelStep
 	sems  []sem
 	// structural problems found while linearising (reported as correspondence mismatches)
-	problems []string
-	catchup  string // "none" | "complete" | "failed"
-	chunks   int
-	fin2     uint64 // the finalised height read by the catch-up's own setL1Head
-	dbFault  bool
+	problems   []string
+	catchup    string // "none" | "complete" | "failed"
+	chunks     int
+	fin2       uint64 // the finalised height read by the catch-up's own setL1Head
+	dbFault    bool
+	faultNotes int // listener notifications during the poll whose database access failed
 }
 
 func headEq(a, b *HeadJ) bool {
@@ -130,6 +131,7 @@ func linearise(c *Case, o *Observed, guard bool) *analysis {
 				if o.DBFaultFired && i == o.DBFaultMark {
 					// the database failed inside the catch-up's own setL1Head: Run only logs it
 					a.dbFault = true
+					a.faultNotes += afterNotes(i) - m.NotesBefore
 					q := "-"
 					if len(queries) > 0 {
 						q = strings.Join(queries, ",")
@@ -172,8 +174,9 @@ func linearise(c *Case, o *Observed, guard bool) *analysis {
 			if o.DBFaultFired && i == o.DBFaultMark {
 				// the database failed inside this setL1Head: Run has returned the error
 				a.dbFault = true
+				a.faultNotes += afterNotes(i) - m.NotesBefore
 				a.steps = append(a.steps, modelStep{line: fmt.Sprintf("tickfault %x %s", m.Fin, c.DBFault),
-					expect: fmt.Sprintf("head=%s feed=%s fatal=1", afterHead(i).String(), o.DBFaultHead.String()),
+					expect: fmt.Sprintf("head=%s feed=%s fatal=%s", afterHead(i).String(), o.DBFaultHead.String(), map[bool]string{true: "1", false: "0"}[o.EndedEarly]),
 					what:   "poll with failing database"})
 				a.sems = append(a.sems, sem{kind: "dbfault"})
 				prevLiveKind = m.Kind
